@@ -1,6 +1,8 @@
 """C04 - CPR decode with a reference position (airborne and surface)."""
 from __future__ import annotations
 
+import math
+
 from .. import core
 from ..probe import call
 from ..ref import bits, cpr
@@ -22,7 +24,7 @@ EXHAUSTIVE_SUBDOMAINS = ["every NL band 1..59 x hemisphere x parity x {airborne,
 ASSUMPTIONS = ["reference latitude clamped to [-90,90], reference longitude wrapped to [-180,180)",
                "box shrunk by two quantisation steps so that float round-off cannot move a reference outside it"]
 REQUIRED = ["airborne", "surface", "parity0", "parity1", "ni_le_0", "ni_gt_0", "ref_across_equator", "ref_across_antimeridian",
-            "ref_across_greenwich", "corner", "routing_checked", "ref_lat_exactly_zero", "ref_lon_exactly_zero", "ref_lon_not_folded", "ref_lon_0_360_convention"] + \
+            "ref_across_greenwich", "corner", "routing_checked", "ref_lat_exactly_zero", "ref_lon_exactly_zero", "ref_lon_not_folded", "ref_lon_0_360_convention", "ref_a_hair_inside_box_edge"] + \
            ["band%d_%s" % (nl, s) for nl in range(1, 60) for s in ("air", "sfc")]
 
 
@@ -45,6 +47,24 @@ def m_ref(ctx, case):
         return
     key_w = "cprNL-window-above-87" if 87.0 < abs(rlat) <= WINDOW_HI else None
     results = []
+    if case.get("edge"):
+        # the encoded position sits in the middle of its zone and the reference a hair inside the edge of the admissible
+        # half-zone box (distance = half a zone minus eps): still "closer than half a zone", so the solution is unique
+        e = case["edge"]
+        q = 4.0 if sfc else 1.0
+        rlon = (dlon_z := slon * 131072.0) * (math.floor(lon / dlon_z) + xz / 131072.0)
+        if e["dim"] == "lat":
+            ry, rx = rlat + e["sgn"] * (dlat / 2 - e["eps"]), lon + 0.01 * e["sgn"]
+        else:
+            ry, rx = rlat + 0.01 * e["sgn"], rlon + e["sgn"] * (dlon / 2 - e["eps"])
+        if -90.0 <= ry <= 90.0:
+            rr = [call(f, msg, ry, cprgen.wrap180(rx)) for f in (adsb.position_with_ref, adsb.surface_position_with_ref if sfc else adsb.airborne_position_with_ref)]
+            ctx.ev(2)
+            ctx.hit("ref_a_hair_inside_box_edge")
+            ok = rr[0] == rr[1] and rr[0][0] == "ok" and rr[0][1] is not None and abs(rr[0][1][0] - lat) <= slat + 1e-9 \
+                and cpr.lon_diff(rr[0][1][1], lon) <= slon + 1e-9
+            if not ok:
+                ctx.violation(key_w or "wrong-position", msg=msg, p=[lat, lon], ref=[ry, rx], result=repr(rr)[:200], edge=e, i=i, surface=sfc)
     for (fy, fx) in case["offs"]:
         hy = dlat / 2 - 2 * slat
         hx = dlon / 2 - 2 * slon
@@ -160,6 +180,20 @@ def cases(ctx):
                         if ctx.mine(i):
                             yield "ref", mkcase(drng, lat0, lon0, par, sfc, offs=[[oy, ox], [-oy * 0.5, -ox]])
                         i += 1
+    # zone-centre positions with references a hair inside the edge of the half-zone box
+    for k in range(ctx.share(3000 if quick else 60000)):
+        par, sfc = rng.randrange(2), rng.random() < 0.4
+        Z = 360.0 / (60 - par) / (4.0 if sfc else 1.0)
+        jmax = int(86.0 / Z)
+        lat = Z * (rng.randint(-jmax, jmax - 1) + 0.5)
+        nl = cpr.NL(lat)
+        if cpr.near_transition(lat):
+            continue
+        W = 360.0 / max(nl - par, 1) / (4.0 if sfc else 1.0)
+        lon = cprgen.wrap180(W * (rng.randint(0, int(360.0 / W) - 1) + 0.5))
+        c = mkcase(rng, lat, lon, par, sfc)
+        c["edge"] = {"dim": rng.choice(("lat", "lon")), "sgn": rng.choice((1, -1)), "eps": rng.choice((1e-9, 3e-9, 1e-8, 1e-7, 1e-6, 1e-5))}
+        yield "ref", c
     for k in range(ctx.share(4000 if quick else 40000)):
         zr = rng.choice(("a", "o", "ao", "ai", "oi", "aoi"))
         lat = rng.uniform(-0.7, 0.7) if "a" in zr else cprgen.rand_sphere_lat(rng)
